@@ -201,8 +201,6 @@ def run_body(clause: Clause, case: Any, rec: Recorder) -> None:
         raise
     except HarnessError:
         raise
-    except RecursionError:
-        raise
     except Exception as e:  # noqa
         if _is_library_exception(e):
             tb = traceback.format_exc(limit=-4)
